@@ -17,7 +17,7 @@ PROMPT = "laythe:> "
 
 def generate(r):
     """entries: list of [text, ok]; files: extra module files"""
-    lets, fns, classes, objs, gfns, mods, closures = [], [], [], [], [], [], []
+    lets, fns, classes, objs, gfns, mods, closures, ghosts = [], [], [], [], [], [], [], []
     entries = []
     files = {}
     n = r.randint(4, 18)
@@ -37,6 +37,9 @@ def generate(r):
             kinds += ["callc", "callc"]
         if lets:
             kinds += ["assign"]
+        kinds += ["ghost"]
+        if ghosts:
+            kinds += ["useghost", "useghost"]
         k = r.choice(kinds)
         if k == "let":
             name = "v%d" % i
@@ -88,6 +91,17 @@ def generate(r):
         elif k == "fiber":
             entries.append(["fn w%d(ch, n) { for j in n.times() { ch <- [j, 'w']; } ch.close(); } let ch%d = chan(2); launch w%d(ch%d, %d); print('fib', (<- ch%d)[0], <- ch%d != nil);" % (
                 i, i, i, i, r.randint(2, 4), i, i), True])
+        elif k == "ghost":
+            # a declaration whose initialiser raises: the entry fails, the name must not become usable garbage
+            name = "z%d" % i
+            entries.append(["let %s = %s;" % (name, r.choice(["[1][4]", "nil()", "{}['missing']", "1 + nil"])), False])
+            ghosts.append(name)
+        elif k == "useghost":
+            # using the name of a failed declaration must fail like any other error, not take the session down
+            name = r.choice(ghosts)
+            # (assigning to it is not generated: whether the name of a failed declaration may be assigned later is
+            # not something the property settles)
+            entries.append([r.choice(["print(%s);", "let y%d = %%s;" % i, "print(%s + 1);"]) % name, False])
         elif k == "mod":
             name = "mod%d" % i
             files["/sim/%s.lay" % name] = ("class K { init(v) { self.v = v; } twice() { self.v * 2 } }\n"
